@@ -23,6 +23,7 @@ LEVEL_TEXT = (
     "must equal the rate of change of each position's enrichment in the isotopomer model built from the same maps "
     "(both sides are linear in the positional marginals, so vertices decide all states). Plus: uniform enrichment equal "
     "to the external pool is stationary for EXT in {0, 0.3, 1}, and no label appears without external or initial label."
+    ' Also: three-way splits / merges and one LinearLabelMapper object built again after its maps were changed.'
 )
 LEVEL_NOTE = "trusted: LabelMapper's isotopomer model (C05 checks it against the base model) as the oracle for the direction and the dynamics; linearity argument for vertex states"
 RULE = (
